@@ -33,6 +33,8 @@
 EXTENDS RdmsStore
 
 CONSTANTS Catalogue,  \* sequence of basis sets (each a sequence of K vectors of length CLen(NC))
+          InterpOnly, \* TRUE: the catalogue holds paths of 4-5 RDMs for selection / interpolation models only
+                      \* (no rank condition, competitors = candidate indices and <<segment, w>> over ALL segments)
           TrainMax,   \* training values 0..TrainMax
           RSet,       \* numbers of training RDMs explored
           ThinR,      \* keep one admissible training row in ThinR (1 = all)
@@ -130,7 +132,16 @@ TrainStacks == UNION {{v \in [1..R -> TrainRows] :
 Common == /\ objs = [o \in 1..MaxObj |-> IF o = 1 THEN Source ELSE Null] /\ hist = <<>>
 \* materialised once (TLC evaluates constant definitions at start-up)
 TrainStackList == SetToSeq(TrainStacks)
-FInit == /\ Common
+\* paths for interpolation models: every RDM of the path and every training RDM varies on the selection
+PathOK(b, tr, p) == /\ \A r \in 1..Len(tr) : NonConst(RC(tr[r], p))
+                    /\ \A j \in 1..Len(Catalogue[b]) : NonConst(RC(Catalogue[b][j], p))
+IInit == /\ Common /\ InterpOnly
+         /\ \E i \in 1..Len(TrainStackList) : train = TrainStackList[i]
+         /\ bid \in 1..Len(Catalogue)
+         /\ pidx \in {p \in PatSels : Len(PresentSeq(Template(p))) >= 3}
+         /\ PathOK(bid, train, pidx)
+         /\ pc = "probi" /\ comp = <<>> /\ th2 = <<>> /\ cc = 0
+FInit == /\ Common /\ ~InterpOnly
          /\ \E i \in 1..Len(TrainStackList) : train = TrainStackList[i]
          /\ bid \in 1..Len(Catalogue)
          /\ pidx \in {p \in PatSels : LET B == Catalogue[bid] IN Len(PresentSeq(Template(p))) >= Len(B) + 1}
@@ -141,7 +152,10 @@ WGrid == {w \in [1..K -> (-CompMax)..CompMax] : \E j \in 1..K : w[j] # 0}
 CompSpace == {[k |-> "w", v |-> w] : w \in WGrid}
              \cup {[k |-> "s", v |-> <<j>>] : j \in 1..K}
              \cup {[k |-> "i", v |-> <<sg, w4>>] : sg \in 1..(K - 1), w4 \in 0..4}
-Adversary == /\ pc = "prob" /\ comp' \in CompSpace /\ pc' = "comp"
+CompSpaceI == {[k |-> "s", v |-> <<j>>] : j \in 1..K}
+              \cup {[k |-> "i", v |-> <<sg, w4>>] : sg \in 1..(K - 1), w4 \in 0..4}
+Adversary == /\ \/ pc = "prob" /\ comp' \in CompSpace /\ pc' = "comp"
+                \/ pc = "probi" /\ comp' \in CompSpaceI /\ pc' = "comp"
              /\ UNCHANGED <<objs, hist, bid, train, pidx, th2, cc>>
 
 \* "lin" behaviours: predictions only (clauses g, h)
@@ -158,16 +172,16 @@ FNext == Adversary \/ PickThetas
 Additive == pc = "lin" => Predict(VAdd(comp, th2), Basis) = VAdd(Predict(comp, Basis), Predict(th2, Basis))
 Homogeneous == pc = "lin" => Predict(VScale(cc, comp), Basis) = VScale(cc, Predict(comp, Basis))
 \* f: only entries among the selected conditions, each with its bootstrap multiplicity
-DepsSelected == pc = "prob" =>
+DepsSelected == pc \in {"prob", "probi"} =>
    LET R == Len(train)  sel == {c + 1 : c \in Range(pidx)} IN
    Deps(pidx, R) = {Tok(r, q[1], q[2]) : r \in 1..R, q \in {q \in sel \X sel : q[1] < q[2]}}
-Multiplicity == pc = "prob" =>
+Multiplicity == pc \in {"prob", "probi"} =>
    LET T == Template(pidx) IN
    /\ \A i \in 1..NC : \A j \in 1..NC : i < j =>
         CountIn(T, Tok(1, i, j)) = Mult(pidx, i - 1) * Mult(pidx, j - 1)
    /\ CountIn(T, NaN) = SumS([c \in 1..NC |-> (Mult(pidx, c - 1) * (Mult(pidx, c - 1) - 1)) \div 2])
 \* the order in which the indices are listed does not matter
-OrderFree == pc = "prob" =>
+OrderFree == pc \in {"prob", "probi"} =>
    LET n == Len(pidx)  rev == [k \in 1..n |-> pidx[n + 1 - k]] IN Template(rev) = Template(pidx)
 \* one training RDM, cosine, K = 2, small numbers: no grid competitor beats adj(G) b - decided exactly:
 \* (b.c)^2 det(G) <= (b' adj(G) b) (c' G c) whenever b.c > 0
@@ -191,6 +205,12 @@ EmitF ==
                                                THEN ExactCorr(XCos(pidx), RC(train[1], pidx)) ELSE <<>>,
                                       sel |-> SetSeq(BestSel(XCos(pidx), RC(train[1], pidx)))]
                                 ELSE [cos |-> <<>>, corr |-> <<>>, sel |-> <<>>]]))
+  /\ pc = "probi" =>
+       PrintT(ToJson([t |-> "prob", bid |-> bid, basis |-> Basis, train |-> train, pidx |-> pidx,
+                      tmpl |-> Template(pidx), deps |-> SetSeq(Deps(pidx, Len(train))), xcos |-> XCos(pidx),
+                      interp |-> TRUE,
+                      exact |-> [cos |-> <<>>, corr |-> <<>>,
+                                 sel |-> IF Len(train) = 1 THEN SetSeq(BestSel(XCos(pidx), RC(train[1], pidx))) ELSE <<>>]]))
   /\ pc = "comp" =>
        PrintT(ToJson([t |-> "comp", bid |-> bid, train |-> train, pidx |-> pidx, k |-> comp.k, v |-> comp.v]))
   /\ pc = "lin" =>
